@@ -16,27 +16,27 @@ Import ListNotations.
 Theorem C10_queue_results_independent_of_prior_memory :
   forall a b a' b' n cs,
     c_run_case GenCtor.eq_copy_inits_counters GenCtor.eq_copy_counters_from_source
-               GenCtor.eq_move_inits_counters GenCtor.eq_move_counters_from_source a b n cs
+               GenCtor.eq_move_inits_counters GenCtor.eq_move_counters_from_source a b GenCtor.eq_copy_assign_self_safe n cs
     = c_run_case GenCtor.eq_copy_inits_counters GenCtor.eq_copy_counters_from_source
-                 GenCtor.eq_move_inits_counters GenCtor.eq_move_counters_from_source a' b' n cs.
-Proof. exact (junk_independent _ _). Qed.
+                 GenCtor.eq_move_inits_counters GenCtor.eq_move_counters_from_source a' b' GenCtor.eq_copy_assign_self_safe n cs.
+Proof. exact (junk_independent _ _ _). Qed.
 Print Assumptions C10_queue_results_independent_of_prior_memory.
 
 Theorem C10_heter_queue_results_independent_of_prior_memory :
   forall a b a' b' n cs,
     c_run_case GenCtor.heq_copy_inits_counters GenCtor.heq_copy_counters_from_source
-               GenCtor.heq_move_inits_counters GenCtor.heq_move_counters_from_source a b n cs
+               GenCtor.heq_move_inits_counters GenCtor.heq_move_counters_from_source a b GenCtor.heq_copy_assign_self_safe n cs
     = c_run_case GenCtor.heq_copy_inits_counters GenCtor.heq_copy_counters_from_source
-                 GenCtor.heq_move_inits_counters GenCtor.heq_move_counters_from_source a' b' n cs.
-Proof. exact (junk_independent _ _). Qed.
+                 GenCtor.heq_move_inits_counters GenCtor.heq_move_counters_from_source a' b' GenCtor.heq_copy_assign_self_safe n cs.
+Proof. exact (junk_independent _ _ _). Qed.
 Print Assumptions C10_heter_queue_results_independent_of_prior_memory.
 
 (* a copied or moved-to queue reports empty until something is enqueued into it, and waiting /
    notification then sees the event — whatever operations are in flight on the source (x ranges
    over all objects, any counter values) *)
 Theorem C10_constructed_queue_is_fresh :
-  forall (a b : Z) (x : cobj),
-    let y := copy_of GenCtor.eq_copy_inits_counters GenCtor.eq_copy_counters_from_source a b x in
+  forall (a b : Z) (nxt : nat) (x : cobj),
+    let y := fst (copy_at GenCtor.eq_copy_inits_counters GenCtor.eq_copy_counters_from_source a b nxt x) in
     let z := moved_into GenCtor.eq_move_inits_counters GenCtor.eq_move_counters_from_source a b x in
     GenQ.empty_queue (is_nil (opending y)) (oecnt y) = true /\
     GenQ.empty_queue (is_nil (opending z)) (oecnt z) = true /\
@@ -46,8 +46,8 @@ Proof. exact constructed_queue_is_fresh. Qed.
 Print Assumptions C10_constructed_queue_is_fresh.
 
 Theorem C10_constructed_heter_queue_is_fresh :
-  forall (a b : Z) (x : cobj),
-    let y := copy_of GenCtor.heq_copy_inits_counters GenCtor.heq_copy_counters_from_source a b x in
+  forall (a b : Z) (nxt : nat) (x : cobj),
+    let y := fst (copy_at GenCtor.heq_copy_inits_counters GenCtor.heq_copy_counters_from_source a b nxt x) in
     let z := moved_into GenCtor.heq_move_inits_counters GenCtor.heq_move_counters_from_source a b x in
     GenQ.empty_queue (is_nil (opending y)) (oecnt y) = true /\
     GenQ.empty_queue (is_nil (opending z)) (oecnt z) = true /\
@@ -58,44 +58,95 @@ Print Assumptions C10_constructed_heter_queue_is_fresh.
 
 (* independence: a command changes only the objects it targets *)
 Theorem C10_commands_touch_only_their_targets :
-  forall ci cs mi ms j1 j2 st c st' o',
-    cstep ci cs mi ms j1 j2 st c = Some st' -> ~ In o' (targets c) -> getobj st' o' = getobj st o'.
+  forall ci cs mi ms j1 j2 asafe st c st' o',
+    cstep ci cs mi ms j1 j2 asafe st c = Some st' -> ~ In o' (targets c) -> getobj st' o' = getobj st o'.
 Proof. exact frame. Qed.
 Print Assumptions C10_commands_touch_only_their_targets.
 
+(* the copy holds the same callbacks per key in the same order (cbs_of forgets the node identities), the same filters,
+   no pending events; its nodes are new (identities from the counter on) and the source is as it was *)
 Theorem C10_copy_has_same_listeners_and_filters_no_pending :
-  forall ci cs mi ms j1 j2 st s d x st',
-    getobj st s = Some x -> cstep ci cs mi ms j1 j2 st (CCopyCtor s d) = Some st' ->
-    exists y, getobj st' d = Some y /\ olst y = olst x /\ ofilters y = ofilters x /\ opending y = [] /\
-              getobj st' s = getobj st s.
+  forall ci cs mi ms j1 j2 asafe st s d x st',
+    getobj st s = Some x -> cstep ci cs mi ms j1 j2 asafe st (CCopyCtor s d) = Some st' ->
+    exists y, getobj st' d = Some y /\ CopyModel.cbs_of (olst y) = CopyModel.cbs_of (olst x) /\ ofilters y = ofilters x /\ opending y = [] /\
+              getobj st' s = getobj st s /\
+              (forall m, In m (CopyModel.lnodes (olst y)) -> cnext st <= m < cnext st') /\ cnext st <= cnext st'.
 Proof. exact copy_same_content. Qed.
 Print Assumptions C10_copy_has_same_listeners_and_filters_no_pending.
 
 Theorem C10_move_transfers_and_leaves_source_valid :
-  forall ci cs mi ms j1 j2 st s d x st',
-    getobj st s = Some x -> cstep ci cs mi ms j1 j2 st (CMoveCtor s d) = Some st' ->
+  forall ci cs mi ms j1 j2 asafe st s d x st',
+    getobj st s = Some x -> cstep ci cs mi ms j1 j2 asafe st (CMoveCtor s d) = Some st' ->
     exists y z, getobj st' d = Some y /\ olst y = olst x /\ ofilters y = ofilters x /\ opending y = [] /\
                 getobj st' s = Some z /\ olst z = [] /\ ofilters z = [] /\ opending z = opending x.
 Proof. exact move_transfers. Qed.
 Print Assumptions C10_move_transfers_and_leaves_source_valid.
 
 Theorem C10_swap_exchanges :
-  forall ci cs mi ms j1 j2 st a b x y st',
-    a <> b -> getobj st a = Some x -> getobj st b = Some y -> cstep ci cs mi ms j1 j2 st (CSwap a b) = Some st' ->
+  forall ci cs mi ms j1 j2 asafe st a b x y st',
+    a <> b -> getobj st a = Some x -> getobj st b = Some y -> cstep ci cs mi ms j1 j2 asafe st (CSwap a b) = Some st' ->
     exists x' y', getobj st' a = Some x' /\ getobj st' b = Some y' /\
                   olst x' = olst y /\ ofilters x' = ofilters y /\ olst y' = olst x /\ ofilters y' = ofilters x /\
                   opending x' = opending x /\ opending y' = opending y.
 Proof. exact swap_exchanges. Qed.
 Print Assumptions C10_swap_exchanges.
 
+(* swap with itself and assignment from itself change nothing — not the listeners, not their node identities (every
+   handle taken before stays valid), not the counter, not the trace — for the assignment operators as they are in the
+   headers (tie A: GenCtor.*_copy_assign_self_safe, the dispatcher bases the queues forward to) *)
 Theorem C10_self_swap_and_self_assignment_change_nothing :
   forall ci cs mi ms j1 j2 st a x,
     getobj st a = Some x ->
-    (exists st', cstep ci cs mi ms j1 j2 st (CSwap a a) = Some st' /\ getobj st' a = Some x /\ ctrace st' = ctrace st) /\
-    (exists st', cstep ci cs mi ms j1 j2 st (CCopyAssign a a) = Some st' /\ getobj st' a = Some x /\ ctrace st' = ctrace st) /\
-    cstep ci cs mi ms j1 j2 st (CMoveAssign a a) = Some st.
-Proof. exact self_swap_and_self_assign_change_nothing. Qed.
+    (exists st', cstep ci cs mi ms j1 j2 GenCtor.eq_copy_assign_self_safe st (CSwap a a) = Some st' /\ getobj st' a = Some x /\
+                 ctrace st' = ctrace st /\ cnext st' = cnext st /\ cregs st' = cregs st) /\
+    cstep ci cs mi ms j1 j2 GenCtor.eq_copy_assign_self_safe st (CCopyAssign a a) = Some st /\
+    cstep ci cs mi ms j1 j2 GenCtor.eq_copy_assign_self_safe st (CMoveAssign a a) = Some st.
+Proof. exact (fun ci cs mi ms j1 j2 st a x => self_swap_and_self_assign_change_nothing ci cs mi ms j1 j2 _ st a x eq_refl). Qed.
 Print Assumptions C10_self_swap_and_self_assignment_change_nothing.
+
+Theorem C10_heter_self_swap_and_self_assignment_change_nothing :
+  forall ci cs mi ms j1 j2 st a x,
+    getobj st a = Some x ->
+    (exists st', cstep ci cs mi ms j1 j2 GenCtor.heq_copy_assign_self_safe st (CSwap a a) = Some st' /\ getobj st' a = Some x /\
+                 ctrace st' = ctrace st /\ cnext st' = cnext st /\ cregs st' = cregs st) /\
+    cstep ci cs mi ms j1 j2 GenCtor.heq_copy_assign_self_safe st (CCopyAssign a a) = Some st /\
+    cstep ci cs mi ms j1 j2 GenCtor.heq_copy_assign_self_safe st (CMoveAssign a a) = Some st.
+Proof. exact (fun ci cs mi ms j1 j2 st a x => self_swap_and_self_assign_change_nothing ci cs mi ms j1 j2 _ st a x eq_refl). Qed.
+Print Assumptions C10_heter_self_swap_and_self_assignment_change_nothing.
+
+(* regression statement for an assignment written as copy-and-swap without a self test (seeded change C10c): the same
+   program with the flag false / true *)
+Theorem C10_unsafe_self_assignment_refuted :
+  c_run_case true false true false 0 0 false 2 [CAppend 0 1 5; COwns 0 1 0; CCopyAssign 0 0; COwns 0 1 0] = Some [CRet true; CRet false] /\
+  c_run_case true false true false 0 0 true 2 [CAppend 0 1 5; COwns 0 1 0; CCopyAssign 0 0; COwns 0 1 0] = Some [CRet true; CRet true].
+Proof. exact unsafe_self_assignment_refuted. Qed.
+
+(* INDEPENDENCE AT THE LEVEL OF HANDLES.  Every reachable state keeps node identities and handle registers below the
+   counter; in such a state the object a copy constructor builds shares no node with any object that existed, and
+   ownsHandle on it answers false for every handle taken so far; a move constructor hands the nodes over: the target
+   answers ownsHandle as the source did, the source owns nothing *)
+Theorem C10_identities_below_the_counter_in_every_reachable_state :
+  forall ci cs mi ms j1 j2 asafe n prog st,
+    crun ci cs mi ms j1 j2 asafe (cinit n) prog = Some st -> CopyProofs.Bounded st.
+Proof. exact bounded_reachable. Qed.
+Print Assumptions C10_identities_below_the_counter_in_every_reachable_state.
+
+Theorem C10_copy_owns_no_earlier_handle :
+  forall ci cs mi ms j1 j2 asafe st s d st',
+    CopyProofs.Bounded st -> cstep ci cs mi ms j1 j2 asafe st (CCopyCtor s d) = Some st' ->
+    exists y, getobj st' d = Some y /\
+      (forall o x m, getobj st o = Some x -> In m (CopyModel.lnodes (olst x)) -> ~ In m (CopyModel.lnodes (olst y))) /\
+      (forall k h n, nth_error (cregs st') h = Some n -> CopyModel.has_node n (CopyModel.klist y k) = false).
+Proof. exact copy_owns_no_earlier_handle. Qed.
+Print Assumptions C10_copy_owns_no_earlier_handle.
+
+Theorem C10_move_hands_over_the_handles :
+  forall ci cs mi ms j1 j2 asafe st s d x st',
+    getobj st s = Some x -> cstep ci cs mi ms j1 j2 asafe st (CMoveCtor s d) = Some st' ->
+    exists y z, getobj st' d = Some y /\ getobj st' s = Some z /\ cregs st' = cregs st /\
+      (forall k n, CopyModel.has_node n (CopyModel.klist y k) = CopyModel.has_node n (CopyModel.klist x k)) /\ (forall k n, CopyModel.has_node n (CopyModel.klist z k) = false).
+Proof. exact move_hands_over_the_handles. Qed.
+Print Assumptions C10_move_hands_over_the_handles.
 
 (* regression witness for the repaired constructors (0cf92d0) *)
 Theorem C10_uninitialised_counters_refuted :
@@ -122,7 +173,7 @@ Print Assumptions C10_lists_after_restructuring_obey_nested_rules.
 
 Example C10_example :
   c_run_case GenCtor.eq_copy_inits_counters GenCtor.eq_copy_counters_from_source
-             GenCtor.eq_move_inits_counters GenCtor.eq_move_counters_from_source (-1414812757)%Z 5%Z 3
+             GenCtor.eq_move_inits_counters GenCtor.eq_move_counters_from_source (-1414812757)%Z 5%Z GenCtor.eq_copy_assign_self_safe 3
     [CAppend 0 1 5; CAddFilter 0 9 true; CEnqueue 0 1 7%Z; CGuardBegin 0 1; CCopyCtor 0 1; CGuardEnd 0 1; CEmptyQ 1; CEnqueue 1 1 8%Z; CCanProcess 1; CProcess 1; CAppend 1 1 6; CDispatch 0 1 3%Z]
   = Some [CRet true; CRet true; CFilter 1 9 8%Z; CCall 1 5 1 8%Z; CRet true; CFilter 0 9 3%Z; CCall 0 5 1 3%Z].
 Proof. vm_compute. reflexivity. Qed.
